@@ -822,6 +822,7 @@ package cbor
 //@   arith bv
 //@   flag tags binary_log
 //@   requires src != nil && dst != nil
+//@   ensures [C17] old(len(content(src))) > 0 && old(content(src))[0] & 31 == 31 ==> arrat(content(src), off(content(src)) - 1) == 255
 //@   ensures forall j in old(ncalls(Reader.Peek))..ncalls(Reader.Peek): callres(Reader.Peek, j, 1) == nil
 //@   loop 1:
 //@     invariant forall j in old(ncalls(Reader.Peek))..ncalls(Reader.Peek): callres(Reader.Peek, j, 1) == nil
@@ -832,6 +833,7 @@ package cbor
 //@   arith bv
 //@   flag tags binary_log
 //@   requires src != nil && dst != nil
+//@   ensures [C17] old(len(content(src))) > 0 && old(content(src))[0] & 31 == 31 ==> arrat(content(src), off(content(src)) - 1) == 255
 //@   ensures forall j in old(ncalls(Reader.Peek))..ncalls(Reader.Peek): callres(Reader.Peek, j, 1) == nil
 //@   loop 1:
 //@     invariant forall j in old(ncalls(Reader.Peek))..ncalls(Reader.Peek): callres(Reader.Peek, j, 1) == nil
